@@ -155,8 +155,25 @@ def check_jac(case, ctx):
     rg = [j for j, l in enumerate(desc["leaves"]) if l["rg"]]
     m = case["m"]
     crng = np.random.default_rng(case["cseed"])
-    C1 = [torch.tensor(crng.standard_normal((m,) + tuple(o.shape)), dtype=torch.float64) for o in b.outputs]
-    C2 = [torch.tensor(crng.standard_normal((m,) + tuple(o.shape)), dtype=torch.float64) for o in b.outputs]
+    def cot(o):
+        """Cotangents of one output: Gaussian, or STRUCTURED ones - small integers (exact zeros, +x / -x pairs), blocks that sum to
+        exactly zero without being zero (ranking / margin losses: f_i - f_j), all-zero blocks (an output no row looks at)."""
+        shape = (m,) + tuple(o.shape)
+        k = int(crng.integers(5))
+        if k == 0:
+            c = crng.integers(-1, 2, size=shape).astype(np.float64)
+        elif k == 1:
+            c = crng.standard_normal(shape)
+            c = c - c.reshape(m, -1).mean(axis=1).reshape((m,) + (1,) * len(o.shape)) if o.numel() >= 2 else c - c.mean()  # every row (or the whole block) sums to 0
+            ctx.count("w_zero_sum_cotangents")
+        elif k == 2 and len(b.outputs) >= 2:
+            c = np.zeros(shape)
+        else:
+            c = crng.standard_normal(shape)
+        return torch.tensor(c, dtype=torch.float64)
+
+    C1 = [cot(o) for o in b.outputs]
+    C2 = [cot(o) for o in b.outputs]
     a, bb = float(np.round(crng.uniform(-2, 2), 3)), float(np.round(crng.uniform(-2, 2), 3))
     inputs = [b.leaves[j] for j in rg]
     jac = tr.Jac(cont(crng, b.outputs, ctx), cont(crng, inputs, ctx), case["chunk"], retain_graph=True)
